@@ -1390,7 +1390,18 @@ namespace awkward {
         IndexOf<T> outindex = pair.second;
 
         ContentPtr next = content_.get()->carry(nextcarry, true);
-        ContentPtr out = next.get()->getitem_next(head, tail, advanced);
+        // the positions of `advanced` belonging to missing values are projected away together with them
+        Index64 nextadvanced = (advanced.length() == 0 ? advanced : Index64(nextcarry.length()));
+        if (advanced.length() != 0) {
+          int64_t k = 0;
+          for (int64_t i = 0;  i < outindex.length();  i++) {
+            if (outindex.getitem_at_nowrap(i) >= 0) {
+              nextadvanced.setitem_at_nowrap(k, advanced.getitem_at_nowrap(i));
+              k++;
+            }
+          }
+        }
+        ContentPtr out = next.get()->getitem_next(head, tail, nextadvanced);
         IndexedArrayOf<T, ISOPTION> out2(identities_,
                                          parameters_,
                                          outindex,
